@@ -149,6 +149,12 @@ def main():
     for r in results:
         r["tier"] = args.tier
         old[r["id"]] = r
+    try:  # forget entries of mutants / seeds that no longer exist
+        from pbt.mutants_list import MUTANTS as _M
+        known = {m["id"] for m in _M} | {m["id"] for m in seeded()}
+        old = {k: v for k, v in old.items() if k in known}
+    except Exception:  # noqa
+        pass
     json.dump(sorted(old.values(), key=lambda r: r["id"]), open(path, "w"), indent=1, sort_keys=True)
     bad = [r for r in results if "error" in r or not r.get("killed")]
     return 1 if bad else 0
